@@ -154,6 +154,59 @@ def is_const(node: ast.AST, value=None) -> bool:
     return value is None or (node.value == value and type(node.value) is type(value))
 
 
+_NEG_CMP = {ast.Lt: ast.GtE, ast.Gt: ast.LtE, ast.LtE: ast.Gt, ast.GtE: ast.Lt, ast.Eq: ast.NotEq, ast.NotEq: ast.Eq, ast.Is: ast.IsNot, ast.IsNot: ast.Is, ast.In: ast.NotIn, ast.NotIn: ast.In}
+
+
+class Normalise(ast.NodeTransformer):
+    """Behaviour-preserving canonicalisation applied to every module before analysis, so that rules see ONE shape for common variants:
+      N1  x = x <op> k            ->  x <op>= k          (names and attributes)
+      N2  not (a <cmp> b)         ->  a <negated cmp> b   (single comparisons; `not x is None` -> `x is not None`)
+      N3  if not c: A else: B     ->  if c: B else: A     (two-armed ifs whose else is not an elif; also conditional expressions);
+          likewise `!=`, `not in`, `is not`, `>=`, `<=` tests of two-armed ifs become `==`, `in`, `is`, `<`, `>` with the arms swapped
+    Positions are kept (copy_location), nothing is evaluated."""
+
+    def visit_Assign(self, n):
+        self.generic_visit(n)
+        if len(n.targets) == 1 and isinstance(n.targets[0], (ast.Name, ast.Attribute)) and isinstance(n.value, ast.BinOp) and isinstance(n.value.op, (ast.Add, ast.Sub, ast.Mult)) \
+                and ast.dump(n.value.left) == ast.dump(n.targets[0]).replace("ctx=Store()", "ctx=Load()"):
+            return ast.copy_location(ast.AugAssign(target=n.targets[0], op=n.value.op, value=n.value.right), n)
+        return n
+
+    def visit_UnaryOp(self, n):
+        self.generic_visit(n)
+        if isinstance(n.op, ast.Not) and isinstance(n.operand, ast.Compare) and len(n.operand.ops) == 1 and type(n.operand.ops[0]) in _NEG_CMP:
+            c = n.operand
+            return ast.copy_location(ast.Compare(left=c.left, ops=[_NEG_CMP[type(c.ops[0])]()], comparators=c.comparators), n)
+        if isinstance(n.op, ast.Not) and isinstance(n.operand, ast.UnaryOp) and isinstance(n.operand.op, ast.Not) and isinstance(getattr(n, "_boolctx", None), bool):
+            return n.operand.operand
+        return n
+
+    _POS = {ast.NotEq: ast.Eq, ast.NotIn: ast.In, ast.IsNot: ast.Is, ast.GtE: ast.Lt, ast.LtE: ast.Gt}
+
+    def _positive(self, test):
+        """(new test, swapped?) — canonical polarity of a two-armed condition: no leading `not`, and ==, in, is, <, > rather than their negations."""
+        if isinstance(test, ast.UnaryOp) and isinstance(test.op, ast.Not):
+            return test.operand, True
+        if isinstance(test, ast.Compare) and len(test.ops) == 1 and type(test.ops[0]) in self._POS:
+            return ast.copy_location(ast.Compare(left=test.left, ops=[self._POS[type(test.ops[0])]()], comparators=test.comparators), test), True
+        return test, False
+
+    def visit_If(self, n):
+        self.generic_visit(n)
+        if n.orelse and not (len(n.orelse) == 1 and isinstance(n.orelse[0], ast.If)):
+            t, sw = self._positive(n.test)
+            if sw:
+                n.test, n.body, n.orelse = t, n.orelse, n.body
+        return n
+
+    def visit_IfExp(self, n):
+        self.generic_visit(n)
+        t, sw = self._positive(n.test)
+        if sw:
+            n.test, n.body, n.orelse = t, n.orelse, n.body
+        return n
+
+
 class Module:
     def __init__(self, repo: "Repo", relpath: str, text: str):
         self.repo = repo
@@ -161,6 +214,8 @@ class Module:
         self.text = text
         self.sha = hashlib.sha256(text.encode("utf-8")).hexdigest()
         self.tree = ast.parse(text, filename=relpath)
+        self.tree = Normalise().visit(self.tree)
+        ast.fix_missing_locations(self.tree)
         set_parents(self.tree)
         for n in ast.walk(self.tree):
             n._module = self  # type: ignore[attr-defined]
